@@ -170,7 +170,7 @@ fn load_relevant_coins<C: ContentAddrStore>(
 
     // add the ones created in this batch
     for tx in txx {
-        if !tx.is_well_formed() {
+        if !tx.is_well_formed() || !totals_are_representable(tx) {
             return Err(StateError::MalformedTx);
         }
 
@@ -194,6 +194,23 @@ fn load_relevant_coins<C: ContentAddrStore>(
     }
 
     Ok(accum)
+}
+
+/// Checks that the totals which the rest of validation computes from this transaction fit into a `u128`: the sum of its outputs per denomination (plus the fee, for MEL) and the sum of its covenants' weights. `Transaction::total_outputs` and `Transaction::weight` add these up unchecked, so 255 outputs of 2^120 plus a fee of 2^120 (or two covenants of saturated weight) overflowed: a panic with overflow checks, and without them a total that wraps around to a balanced-looking 0.
+fn totals_are_representable(tx: &Transaction) -> bool {
+    let mut totals: FxHashMap<Denom, u128> = FxHashMap::default();
+    totals.insert(Denom::Mel, tx.fee.0);
+    for output in tx.outputs.iter() {
+        let total = totals.entry(output.denom).or_insert(0);
+        match total.checked_add(output.value.0) {
+            Some(sum) => *total = sum,
+            None => return false,
+        }
+    }
+    tx.covenants
+        .iter()
+        .try_fold(0u128, |sum, cov| sum.checked_add(covenant_weight_from_bytes(cov)))
+        .is_some()
 }
 
 fn extract_input_coins<C: ContentAddrStore>(
